@@ -28,7 +28,7 @@ m = {
     "setup_cmd": "cd /verif/harness && GOFLAGS=-mod=mod GOPROXY=off GOSUMDB=off GOTOOLCHAIN=local go test -tags verif -c -o /dev/null ./checks",
     "hooks": {
         "guard": "verif",
-        "enable": "go build tag: the harness is compiled with `go test -tags verif` against /repo (module replace), which switches x/liquidity/amm/verif_hook_on.go in and verif_hook_off.go out",
+        "enable": "go build tag: the harness is compiled with `go test -tags verif` against /repo (module replace), which switches x/liquidity/amm/verif_hook_on.go and types/verif_hook_on.go in and the verif_hook_off.go twins out",
         "baseline_off_cmd": "cd /repo && GOFLAGS=-mod=mod GOPROXY=off GOSUMDB=off go test -vet=off -count=1 -timeout 25m ./...",
         "source_commits": json.load(open(os.path.join(ROOT, "hook_commits.json"))),
         "add_only": True,
